@@ -53,6 +53,20 @@ fn case(ctx: &mut Ctx, parser: &liquid::Parser, kind: &str, t: Vec<Node>, data: 
 
 pub fn run(ctx: &mut Ctx) {
     let parser = build_parser(&[], Policy::Eager);
+    // `break` / `continue` in the else branch of an inner loop that selects nothing belong to the
+    // ENCLOSING loop (the inner loop has no iteration they could refer to)
+    for intr in [Node::Break, Node::Continue] {
+        for (rows, lim) in [("rows", None), ("rows", Some(0i64)), ("rows2", None)] {
+            let inner = Node::For { x: "x".into(), rng: RangeE::Arr(var("row")), limit: lim.map(lit_i), offset: None, rev: false,
+                body: vec![out(var("x"))], els: Some(vec![text("empty"), intr.clone(), text("never")]) };
+            let t = vec![Node::For { x: "row".into(), rng: RangeE::Arr(var(rows)), limit: None, offset: None, rev: false,
+                body: vec![text("<"), out(path("forloop", &["index"])), text(":"), inner, text("|end>")], els: None }, text("after")];
+            let mut d = Object::new();
+            d.insert("rows".into(), Value::Array(vec![Value::Array(vec![Value::scalar(1i64), Value::scalar(2i64)]), Value::Array(vec![]), Value::Array(vec![Value::scalar(3i64)])]));
+            d.insert("rows2".into(), Value::Array(vec![Value::Array(vec![]), Value::Array(vec![Value::scalar(7i64)]), Value::Array(vec![])]));
+            case(ctx, &parser, "else-interrupt", t, &d);
+        }
+    }
     // a counted range is collected into a vector BEFORE limit/offset are applied: the full i64 range
     // overflows the vector's capacity computation (an open finding, see known_findings.json); only this
     // exact witness is run, because slightly shorter ranges try to allocate terabytes and abort
